@@ -19,6 +19,8 @@ CLAIMED = {
          "TLA+ model checking + spec->code edge replay + trace validation"),
  "C16": ("model_checking", "6 C16", "TLC: MC_C16 matrix versions (6 supported + 4 unsupported) x operations x version-dependent attributes enumerated completely; one real request per cell; random histories over all versions; TraceEngine.tla clauses echo/refuse/op/avail/attrs/create/query/discover; every listed version and advertised operation is then used for real. Field-level version gating of the encodings is part of C01/C02 (not claimed here)",
          "TLA+ model checking of the version matrix + one real request per cell + trace validation"),
+ "C17": ("model_checking", "6 C17", "TLC enumerates the full product certificate x EKU (incl. look-alike OIDs) x flag x plugin lists x request kinds; the modelled message loop (Session.tla SessionOutcome) is checked against the property's own definition of an established identity; EVERY enumerated row is executed on a real KmipSession with real DER certificates, scripted SLUGS and a real engine behind a spy, and judged by the same predicates (exhaustive within the menu)",
+         "TLA+ exhaustive decision-table enumeration + one real session run per TLC row"),
  "C18": ("model_checking", "6 C18", "TLC: PolicyMonitor.tla (faithful transcription of scan_policies) with the ghost of successfully loaded contents; invariant C18 over all file-event sequences within the bounds (negative control DROP_STALE=FALSE violates it); every transition of a smaller graph executed on a real PolicyDirectoryMonitor over a real directory with controlled mtimes; random long event sequences validated by TraceC18.tla; PolicyDoc.tla enumerates the document grammar, every document fed to the real parser and a real scan",
          "TLA+ model checking + spec->code edge replay + trace validation; TLC-enumerated document grammar"),
  "C11": ("model_checking", "6 C11", "TLC: RunRequest reads only (store, request); clause C11_placeholder on MC_C08; every request of random multi-client multi-version histories is compared with a fresh engine on a copy of the database (differential) and validated by TraceEngine.tla",
@@ -32,7 +34,6 @@ NOT_YET = {
  "C09": "check not built yet in this round",
  "C10": "check not built yet in this round",
  "C12": "check not built yet in this round",
- "C17": "check not built yet in this round",
  "C19": "check not built yet in this round",
  "C20": "check not built yet in this round",
 }
